@@ -353,6 +353,7 @@ namespace {
     std::vector<std::pair<int, int>> rflag_calls; // (flag, occurrence) of return sites
     std::set<int> marks;
     bool fired = false;
+    int reentries = 0, reentries_failed = 0, other_engines = 0; // reach probes
     std::string violation_rule, violation_detail;
     std::string outcome; // rendering of results / exceptions of every chunk
   };
@@ -404,10 +405,12 @@ namespace {
               }
             };
             int result = -1;
+            ++x.reentries;
             try {
               result = e.eval<int>(script);
               check("returned");
             } catch (...) {
+              ++x.reentries_failed;
               check("threw");
               if (mode % 5 == 4) {
                 throw;
@@ -424,6 +427,7 @@ namespace {
           }),
           "==");
     e.add(fun([&](int mode) -> int {
+            ++x.other_engines;
             if (mode == 1) {
               if (pre) {
                 pre.reset();
@@ -690,6 +694,9 @@ namespace {
       ++r.evals;
       hash_exec(h, base);
       r.counters["programs"] += 1;
+      r.counters["probe_reentrant_eval_from_callback"] += base.reentries;
+      r.counters["probe_reentrant_eval_failed_and_was_handled_or_passed_on"] += base.reentries_failed;
+      r.counters["probe_other_engine_built_or_destroyed_mid_evaluation"] += base.other_engines;
       r.counters["cb_invocations_fault_free"] += int64_t(base.cb_calls.size());
       if (!base.violation_rule.empty()) {
         report(base, Fault{});
@@ -746,6 +753,7 @@ namespace {
         } else {
           r.counters["crash_point_not_reached"] += 1;
         }
+        r.counters["probe_reentrant_eval_failed_and_was_handled_or_passed_on"] += x.reentries_failed;
         if (x.outcome.find('!') != std::string::npos) {
           r.counters["probe_exception_left_eval"] += 1;
         } else if (x.fired) {
